@@ -63,8 +63,13 @@ impl Shape {
     pub fn total_height(&self) -> u64 {
         self.heights().iter().sum()
     }
+    /// with the toy hasher the model runs about 6 times faster inside Coq than with SHA-256
+    /// (what remains is the assembly of the preimages)
+    pub fn speed(&self) -> f64 {
+        if self.hash.starts_with("toy") { 6.0 } else { 1.0 }
+    }
     pub fn keygen_cost(&self) -> f64 {
-        tree_cost(self.n(), self.levels[0]) / 4000.0
+        tree_cost(self.n(), self.levels[0]) / 4000.0 / self.speed()
     }
     pub fn sign_cost(&self) -> f64 {
         let n = self.n();
@@ -72,7 +77,17 @@ impl Shape {
         for (i, lv) in self.levels.iter().enumerate() {
             c += tree_cost(n, *lv) * if i == 0 { 1.0 } else { 2.0 };
         }
-        c / 4000.0
+        c / 4000.0 / self.speed()
+    }
+    /// cost of verifying one signature (chains of every level + the climbs), same unit as sign_cost
+    pub fn verify_cost(&self) -> f64 {
+        let n = self.n();
+        let mut c = 0.0;
+        for lv in self.levels.iter() {
+            let w = w_of(lv.0);
+            c += (p_of(n, w) * (1u64 << w) + h_of(lv.1) + 4) as f64;
+        }
+        c / 4000.0 / self.speed()
     }
     pub fn variants_json(&self) -> String {
         let v: Vec<String> = self.levels.iter().map(|l| format!("[{},{}]", l.0, l.1)).collect();
@@ -200,6 +215,7 @@ pub fn set_counter(blob: &[u8], c: u64) -> Vec<u8> {
     b
 }
 
+/// hashers the Coq model can execute: SHA-256 (Exec/Sha256.v) and the toy hasher (Exec/Toy.v)
 pub fn is_sha(hash: &str) -> bool {
-    hash.starts_with("sha256")
+    hash.starts_with("sha256") || hash.starts_with("toy")
 }
